@@ -2400,6 +2400,9 @@ fn run_exchange(w: &World, sc: &Script, k: u64, out: &mut Vec<Value>, shard: u64
 								let (f, _, _) = oracle_accepted(w, sc, &fin, &id, &ctx0, &reply, false, counter, None);
 								end_fail.extend(f);
 							}
+							// (a transaction over the weight limit — every output of a large account
+							// as input — is refused whatever came before: not a trace of the mutants)
+							Ok(Err(Error::Transaction(ref e))) if format!("{:?}", e).contains("TooHeavy") => {}
 							other => end_fail.push(format!(
 								"the honest reply was refused after refused mutations: {:?}",
 								other.map(|r| r.map(|_| ()).map_err(|e| format!("{:?}", e)))
